@@ -10,6 +10,7 @@ from __future__ import annotations
 
 import ast
 
+from ..cfg import deref_at
 from ..astutil import body_always_raises, calls_in, dotted, enclosing_stmt, is_within, kwarg, src, walk_local
 from ..cfg import cfg_of
 from ..loader import AnalysisError
@@ -324,7 +325,13 @@ def r5_new_key(ctx):
     for c in calls_in(mn.node):
         if (dotted(c.func) or '').endswith('add_key'):
             pw = kwarg(c, 'password')
-            ok = isinstance(pw, ast.IfExp) and 'clone' in src(pw.test) and src(pw.body) == 'args.new_password' and src(pw.orelse) == 'args.password' and 'not' in src(pw.test)
+            pw = deref_at(mn.node, pw) if pw is not None else None
+            if isinstance(pw, ast.IfExp):
+                t, when_clone, otherwise = pw.test, pw.body, pw.orelse
+                if isinstance(t, ast.UnaryOp) and isinstance(t.op, ast.Not):
+                    t, when_clone, otherwise = t.operand, otherwise, when_clone
+                t = deref_at(mn.node, t)
+                ok = isinstance(t, ast.Attribute) and t.attr == 'clone' and isinstance(when_clone, ast.Attribute) and when_clone.attr == 'password' and isinstance(otherwise, ast.Attribute) and otherwise.attr == 'new_password' and dotted(when_clone.value) == dotted(otherwise.value) == dotted(t.value)
     ctx.check(ok, 'C17.R5', f'{func_label(mn)}|clone-uses-own-password', loc(mn, mn.node), 'CLI add-key: the new key takes --new-password, or the caller\'s password in clone mode', 'CLI add-key: the password handed to add_key is not (new password | own password when cloning)')
 
 
